@@ -54,7 +54,12 @@ def run_function(model, fv, make_args, opaque=None, flags=None, kwargs_fn=None):
 
 def registry_func(model, name):
     m, f = model.registered(name)
-    return Func(m, f)
+    dyn = getattr(model, 'registry_values', {}).get(name)
+    if dyn is not None:
+        return dyn          # registered by a call at import time: the value (with its closure) as it was registered
+    fv = Func(m, f)
+    fv.attrs['<as-registered>'] = True
+    return fv
 
 
 def describe(outcomes):
